@@ -66,7 +66,8 @@ def main():
         if name.endswith("_push_item_shape"):
             return ("C03", "C16")
         if name.endswith("_delegates"):
-            return ("C14",) if name.startswith("Fleet") else ("C11",)
+            base = ("C14",) if name.startswith("Fleet") else ("C11",)
+            return base + (("C07",) if name.endswith("_cancel_delegates") else ())      # a cancel checked by the edge's own store
         if name == "ContBelt_is_stalled":
             return ("C13",)
         if name == "Machine_slot_before_index_draw":
@@ -94,7 +95,7 @@ def main():
     for target, props in (("theories/Edges/TieB.vo", ("C01", "C02", "C04", "C09", "C11", "C15")),
                           ("theories/Nodes/TieAcc.vo", ("C15", "C17")),
                           ("theories/Edges/TieBelt.vo", ("C12", "C13")),
-                          ("theories/Nodes/TieNodes.vo", ("C03", "C08", "C10", "C11", "C14", "C15", "C16")),
+                          ("theories/Nodes/TieNodes.vo", ("C03", "C07", "C08", "C10", "C11", "C14", "C15", "C16")),
                           ("theories/Factory/TieStats.vo", ("C14", "C17", "C18")),
                           ("theories/Factory/TieCommit.vo", ("C09", "C10", "C15"))):
         if pid in props:
